@@ -218,6 +218,11 @@ theorem RInv.read {C r} (h : RInv C r) (n : Nat) : RInv C (r.read n).1 := by
   · exact h
 
 
+theorem RSide.fillStart_oom' {r : RSide} (he : r.eof = false) (hl : r.buf.lent = false)
+    (hm : r.max ≤ (r.buf.compactTo r.base r.max).data.length) :
+    r.fillStart = ({ r with buf := r.buf.compactTo r.base r.max }, some (.err .oom)) := by
+  simp [RSide.fillStart, he, hl, hm]
+
 theorem RInv.fillStart {C r} (h : RInv C r) : RInv C r.fillStart.1 := by
   unfold RSide.fillStart
   by_cases he : r.eof = true
@@ -1364,5 +1369,76 @@ theorem WSide.write_futinv {w} (h : WInv w) (src : Bytes) (fut : WFut) (hf : Fut
 theorem WSide.shutdownPoll_nopanic (w : WSide) (snap : List Nat) : (w.shutdownPoll snap).2 ≠ some .panic := by
   unfold WSide.shutdownPoll
   split <;> simp
+
+
+theorem FutInv.of_buf_eq {w w' : WSide} {fut : WFut} (h : FutInv w fut) (hb : w'.buf = w.buf) : FutInv w' fut := by
+  cases fut <;> simp_all [FutInv, Buf.avail]
+
+/-- `write` answering WouldBlock changes nothing -/
+theorem WSide.write_wb_same (w : WSide) (src : Bytes) (h : (w.write src).2 = .err .wb) : (w.write src).1 = w := by
+  unfold WSide.write at h ⊢
+  split at h
+  · simp_all
+  · split at h
+    · simp_all
+    · simp only at h
+      split at h
+      · split at h
+        · simp at h
+        · split at h
+          · rename_i h1 h2 h3 h4 h5
+            rw [if_neg h1, if_neg h2]
+            simp only
+            rw [if_pos h3, if_neg h4, if_pos h5]
+          · simp at h
+      · simp at h
+
+/-- on an emptied buffer, with a positive limit, `write` accepts -/
+theorem WSide.write_flushed_ok {w : WSide} (hf : Flushed w) (hl : w.buf.lent = false) (hm : 0 < w.max) (src : Bytes) :
+    ∃ n, (w.write src).2 = .ok n := by
+  obtain ⟨_, hd, hp⟩ := hf
+  unfold WSide.write
+  simp only [hl, hd, hp, List.length_nil, Bool.false_eq_true, if_false, ne_eq, not_true_eq_false, decide_false,
+    Bool.and_false, Nat.sub_zero, Nat.zero_add, Nat.not_lt_zero]
+  split
+  · have : ¬ w.max = 0 := by omega
+    simp only [this, if_false]
+    exact ⟨_, rfl⟩
+  · exact ⟨_, rfl⟩
+
+
+/-! ### `max_buffer_size = 0` and the sticky state after a lost buffer: what the code does -/
+
+theorem WSide.write_max0 {w : WSide} (h : WInv w) (hm : w.max = 0) {src : Bytes} (hs : src ≠ []) :
+    w.write src = (w, .err .wb) := by
+  have hp := h.pend_le
+  have hlen : 0 < src.length := List.length_pos_iff.mpr hs
+  unfold WSide.write
+  split
+  · rfl
+  · split
+    · rfl
+    · simp only
+      have h1 : w.max < w.buf.data.length - w.buf.pos + src.length := by omega
+      have h2 : ¬ w.max < w.buf.data.length - w.buf.pos := by omega
+      have h3 : w.max - (w.buf.data.length - w.buf.pos) = 0 := by omega
+      rw [if_pos h1, if_neg h2, if_pos h3]
+
+theorem RSide.fillStart_max0 {r : RSide} (hm : r.max = 0) (he : r.eof = false) (hl : r.buf.lent = false) :
+    r.fillStart.2 = some (.err .oom) := by
+  rw [RSide.fillStart_oom' he hl (by rw [hm]; exact Nat.zero_le _)]
+
+theorem RSide.lost_sticky (r : RSide) (hl : r.buf.lent = true) (n k : Nat) :
+    r.read n = (r, .err .wb) ∧ r.fillBuf = .err .wb ∧ r.consume n = (r, .panic) ∧ r.intoParts = [] ∧
+    (r.eof = false → r.fill (k + 1) = (r, some .panic)) ∧ (r.eof = true → r.fill (k + 1) = (r, some (.ok 0))) := by
+  refine ⟨by simp [RSide.read, RSide.fillBuf, hl], by simp [RSide.fillBuf, hl], RSide.consume_lent n hl,
+    by simp [RSide.intoParts, hl], ?_, ?_⟩
+  · intro he; simp [RSide.fill, RSide.fillStart, he, hl]
+  · intro he; simp [RSide.fill, RSide.fillStart, he]
+
+theorem WSide.lost_sticky (w : WSide) (hl : w.buf.lent = true) (src : Bytes) (k : Nat) :
+    w.write src = (w, .err .wb) ∧ w.flush (k + 1) = (w, some .panic) ∧ w.hasPending = none := by
+  refine ⟨by simp [WSide.write, hl], ?_, by simp [WSide.hasPending, hl]⟩
+  simp [WSide.flush, WSide.flushDrive, WSide.flushResume, WSide.flushBegin, hl]
 
 end Compio.SyncStream
